@@ -130,6 +130,40 @@ def resolve(F):
     return out
 
 
+def fci_kind_fields(F):
+    """{'transport': field, 'payload': field} of FciFeedbackPacketType, read off its public constants TRANSPORT / PAYLOAD
+    (the struct's own field names are private)"""
+    cached = getattr(F, "_fci_kind", None)
+    if cached is not None:
+        return cached
+    from .interp import Interp
+    out = {"transport": "transport", "payload": "payload"}
+    vals = {}
+    for cname in ("TRANSPORT", "PAYLOAD"):
+        ds = [d for d in F.bodies if d.endswith("FciFeedbackPacketType::" + cname)]
+        if not ds:
+            continue
+        try:
+            I = Interp(F)
+            I.quiet += 1
+            for s, k, r in I.inline(ds[0], None, State(), []):
+                if k == "val" and isinstance(r, StructV):
+                    vals[cname] = r
+        except Exception:
+            pass
+    t, p = vals.get("TRANSPORT"), vals.get("PAYLOAD")
+    if t is not None and p is not None:
+        for f in t.fields:
+            a, b = t.fields.get(f), p.fields.get(f)
+            if isinstance(a, BoolV) and isinstance(b, BoolV):
+                if a.f == ("true",) and b.f == ("false",):
+                    out["transport"] = f
+                elif a.f == ("false",) and b.f == ("true",):
+                    out["payload"] = f
+    F._fci_kind = out
+    return out
+
+
 def alias(F, v):
     """add `role -> value` entries to a symbolic builder value whose fields were renamed"""
     if getattr(F, "_roles_busy", False):
